@@ -8,6 +8,7 @@ import (
 	"net"
 	"runtime"
 	"strings"
+	"sync"
 	"testing"
 	"time"
 
@@ -60,6 +61,62 @@ func auSender(addr string, stop chan struct{}) {
 	}
 }
 
+// Gate on the receiver goroutine (hooks AbacoUDP.loop / AbacoUDP.stop / AbacoUDP.stopped): when armed, stop() first
+// waits until the receiver goroutine stands just before its select, and the goroutine is released only once stop() has
+// closed both the socket and the sendmore channel.  That is the schedule in which the goroutine learns of the stop from
+// the closed channel rather than from the read error; without the gate it is a matter of timing.
+var au struct {
+	mu      sync.Mutex
+	armed   bool
+	holding bool
+	parked  chan struct{} // closed when the receiver goroutine is parked
+	release chan struct{} // closed when it may go on
+	gated   int
+}
+
+func auVPoint(name string) {
+	switch name {
+	case "AbacoUDP.loop":
+		au.mu.Lock()
+		if !au.holding || au.parked == nil {
+			au.mu.Unlock()
+			return
+		}
+		pk, rel := au.parked, au.release
+		au.parked = nil // only the first arrival parks
+		au.mu.Unlock()
+		close(pk)
+		<-rel
+	case "AbacoUDP.stop":
+		au.mu.Lock()
+		if !au.armed {
+			au.mu.Unlock()
+			return
+		}
+		au.holding = true
+		au.parked, au.release = make(chan struct{}), make(chan struct{})
+		pk := au.parked
+		au.mu.Unlock()
+		select {
+		case <-pk:
+			au.mu.Lock()
+			au.gated++
+			au.mu.Unlock()
+		case <-time.After(2 * time.Second): // the goroutine is gone already or sits elsewhere: go on ungated
+		}
+	case "AbacoUDP.stopped":
+		au.mu.Lock()
+		if au.holding {
+			au.holding = false
+			au.parked = nil
+			close(au.release)
+		}
+		au.mu.Unlock()
+	default:
+		lcVPoint(name)
+	}
+}
+
 func auCall(f func() error, limit time.Duration) (bool, string) {
 	ch := make(chan error, 1)
 	go func() {
@@ -82,6 +139,7 @@ func auCall(f func() error, limit time.Duration) (bool, string) {
 }
 
 func TestVerifAbacoUDP(t *testing.T) {
+	VPoint = auVPoint
 	c0 := auCensus()
 	port := 46000 + int(vSeed%1000)
 	addr := fmt.Sprintf("127.0.0.1:%d", port)
@@ -127,7 +185,29 @@ func TestVerifAbacoUDP(t *testing.T) {
 		time.Sleep(time.Duration(20+7*k) * time.Millisecond)
 		step("stop2", func() error { return as.Stop() }, 10*time.Second)
 	}
+	// the same cycles under the gate: the receiver goroutine stands before its select while stop() closes socket and channel
+	au.mu.Lock()
+	au.armed = true
+	au.mu.Unlock()
+	for k := 0; k < 3; k++ {
+		if err := as.Configure(&AbacoSourceConfig{HostPortUDP: []string{addr}}); err != nil {
+			break
+		}
+		step("restart", func() error { return Start(as, q, 10, 40) }, 15*time.Second)
+		time.Sleep(30 * time.Millisecond)
+		step("stop2", func() error { return as.Stop() }, 10*time.Second)
+	}
 	close(stop)
 	time.Sleep(300 * time.Millisecond)
+	// gated failing Start: nothing is sending any more, Sample() finds no data and stops the receivers it opened
+	if err := as.Configure(&AbacoSourceConfig{HostPortUDP: []string{addr}}); err == nil {
+		step("start-nodata", func() error { return Start(as, q, 10, 40) }, 15*time.Second)
+	}
+	au.mu.Lock()
+	au.armed = false
+	g := au.gated
+	au.mu.Unlock()
+	time.Sleep(300 * time.Millisecond)
 	step("end", func() error { return nil }, time.Second)
+	vEmit(vmap{"ev": "UDPGated", "scen": 1, "gated": g})
 }
